@@ -52,6 +52,9 @@ func fill(e *entry) {
 type stats struct {
 	Ops, Mallocs, Frees, CrossFrees, Private, Barriers, LiveChecked int64
 	DefragRounds, DefragMoved, DefragCallbacks                      int64
+	Bursts                                                          int64
+	CacheLevels                                                     map[int]int // mapped-but-unused megabytes seen after a burst had settled (= pages in the page cache)
+	PagesReused                                                     int64       // 1 MiB address ranges of freed pages that were handed out again (phase C)
 	SizesSeen, CapsSeen                                             map[int]int
 	MaxLive                                                         int
 	Fail                                                            []string
@@ -409,6 +412,92 @@ func child(args []string) {
 			barrier(fmt.Sprintf("post-defrag r%d", round))
 		}
 	}
+	// ---- phase C: bursts of new-page demands on fresh allocators. Every first allocation of a class takes a page from
+	// the page cache and, while the cache is low, starts a background refill; several refills in flight can overfill the
+	// cache (capacity 5), the surplus page has to be given back to the OS - and only the surplus one. After the burst
+	// has settled the cached pages are claimed by further allocations, every byte of which is written and read back: a
+	// cached page that was unmapped faults, one that was handed out twice shows as overlapping live allocations.
+	// The cache level is not visible from outside; mapped megabytes minus pages in use (Bytes, SharedMmaps) is.
+	if failed.Load() == 0 {
+		bursts := 40
+		if rounds > 3 {
+			bursts = 400
+		}
+		r := root.Fork("bursts")
+		for it := 0; it < bursts && failed.Load() == 0; it++ {
+			B := memory.NewAllocator()
+			var mu sync.Mutex
+			var live []*entry
+			var wg sync.WaitGroup
+			W := 4 + r.Intn(13)
+			for w := 0; w < W; w++ {
+				wg.Add(1)
+				rw := r.Fork(fmt.Sprintf("b%d/%d", it, w))
+				go func(w int) {
+					defer wg.Done()
+					var mine []*entry
+					for _, ci := range rw.Perm(len(classHints)) {
+						if ci%W != w && rw.Intn(3) != 0 {
+							continue
+						}
+						size := classHints[ci] - 24 - rw.Intn(4)
+						if size < 1 {
+							size = 1
+						}
+						p := B.Malloc(size)
+						if p == nil || len(*p) != size {
+							fail("burst-malloc", "burst: Malloc(%d) returned a wrong slice", size)
+							return
+						}
+						e := &entry{p: p, id: nextID.Add(1), size: size}
+						fill(e)
+						mine = append(mine, e)
+					}
+					mu.Lock()
+					live = append(live, mine...)
+					mu.Unlock()
+				}(w)
+			}
+			wg.Wait()
+			time.Sleep(time.Duration(200+r.Intn(1500)) * time.Microsecond) // refills in flight finish
+			level := B.Bytes.Load()>>20 - int64(B.SharedMmaps.Load())
+			stMu.Lock()
+			if st.CacheLevels == nil {
+				st.CacheLevels = map[int]int{}
+			}
+			st.CacheLevels[int(level)]++
+			st.Bursts++
+			stMu.Unlock()
+			// claim what is cached (and more): the largest class has 8 slots per page
+			for i := 0; i < 8*7; i++ {
+				size := classHints[len(classHints)-1] - 24
+				p := B.Malloc(size)
+				if p == nil {
+					fail("burst-malloc", "burst: Malloc(%d) returned nil", size)
+					break
+				}
+				e := &entry{p: p, id: nextID.Add(1), size: size}
+				fill(e)
+				live = append(live, e)
+			}
+			sort.Slice(live, func(i, j int) bool { return uintptr(unsafe.Pointer(live[i].p)) < uintptr(unsafe.Pointer(live[j].p)) })
+			for i, e := range live {
+				verify(e, "burst")
+				if i > 0 {
+					a := live[i-1]
+					if end := uintptr(unsafe.Pointer(a.p)) + 24 + uintptr(cap(*a.p)); end > uintptr(unsafe.Pointer(e.p)) {
+						fail("overlap", "burst: live allocations overlap: id %d ends at %x, id %d starts at %x", a.id, end, e.id, uintptr(unsafe.Pointer(e.p)))
+					}
+				}
+			}
+			if got := B.Allocs.Load(); got != int64(len(live)) {
+				fail("allocs-count", "burst: Allocs=%d but %d allocations are live", got, len(live))
+			}
+			for _, e := range live {
+				B.Free(e.p)
+			}
+		}
+	}
 	// drain: free everything, Allocs must return to 0
 	for g := range regs {
 		for _, e := range regs[g] {
@@ -548,6 +637,10 @@ func main() {
 		run.Count("live_allocations_swept", s.LiveChecked)
 		run.Count("defrag_rounds", s.DefragRounds)
 		run.Count("defrag_relocated", s.DefragMoved)
+		run.Count("new_page_bursts_on_fresh_allocators", s.Bursts)
+		for lv, n := range s.CacheLevels {
+			run.Count(fmt.Sprintf("bursts_leaving_%d_pages_in_the_page_cache", lv), int64(n))
+		}
 		if j.race {
 			run.Count("children_race_build", 1)
 		}
